@@ -14,7 +14,7 @@ from ..model import qual
 from ..symx import Expander, TupleV, ListV
 from ..anf import R, Unsupported
 from .. import anf
-from .common import struct_ob, formula_ob, guard, last_return, U
+from .common import struct_ob, formula_ob, guard, last_return, U, purity_obligations
 from ..report import AnalysisError, Ob
 from ..term import Resolver, pmatch, find_all, abstract, anf_of
 from ..seq import Layouts, UNKNOWN, show
@@ -23,7 +23,7 @@ COV = "inference/gp/covariance.py"
 MEAN = "inference/gp/mean.py"
 FLOORS = {"builder-vs-pairwise": 4, "value-sibling": 4, "gradient-is-derivative": 9, "changepoint-siblings": 4,
           "composition-order": 4, "mean-sibling": 3, "mean-gradient": 3, "composite-structure": 3,
-          "changepoint-shared-inplace": 3}
+          "changepoint-shared-inplace": 3, "arguments-not-mutated": 60, "overflow-safe": 8}
 
 SCALARS = {"theta[0]", "theta[1]", "theta[1:]", "theta[2:]", "theta"}
 KERNELS = ("WhiteNoise", "SquaredExponential", "RationalQuadratic", "HeteroscedasticNoise")
@@ -188,6 +188,13 @@ def run(prog, tier):
 
     # ---------------------------------------------------------------- mean functions
     obs.extend(_means(prog))
+    # exp() of a coordinate-dependent quantity that can be large and positive must only be used where it saturates
+    obs.extend(_overflow_safe(prog))
+    # no kernel / mean method updates its arguments (theta, u, v, q, x) in place
+    hier = []
+    for b in ("CovarianceFunction", "MeanFunction"):
+        hier += [prog.cls(b)] + prog.subclasses(b)
+    obs.extend(purity_obligations(prog, "arguments-not-mutated", hier))
 
     meta = {
         "explanation": "Each kernel's build_covariance, pairwise __call__ (on the data points) and covariance_and_gradients are expanded "
@@ -374,6 +381,39 @@ def _hetero(prog, ci, cag, psd_fn):
     if not okd:
         why.append(f"self.dK is not [zero matrix with 2.0 at (i, i) for i in range(n_params)], built fresh per parameter: {show(dk)}")
     return not why, "; ".join(why)
+
+
+def _overflow_safe(prog):
+    from .. import lints
+    out = []
+    for b in ("CovarianceFunction", "MeanFunction"):
+        for ci in [prog.cls(b)] + prog.subclasses(b):
+            res = {}
+            for c in prog.mro(ci):
+                for m, fn in c.methods.items():
+                    rz0 = Resolver(fn, prog, c.module, c)
+                    for st in ast.walk(fn):
+                        if isinstance(st, ast.Assign) and len(st.targets) == 1 and isinstance(st.targets[0], ast.Attribute) \
+                                and U(st.targets[0].value) == "self":
+                            res.setdefault(st.targets[0].attr, []).append(rz0.term(st.value, st))
+            for m, fn in ci.methods.items():
+                rz = Resolver(fn, prog, ci.module, ci)
+                rets = rz.return_terms()
+                if not any(isinstance(n, ast.Call) and U(n.func) == "exp" for t in rets for n in ast.walk(t)):
+                    continue
+                theta = [a.arg for a in fn.args.args if a.arg == "theta"]
+                hits = [h for t in rets for h in lints.unsaturated_exp(t, theta, res)]
+                msg = ""
+                if hits:
+                    msg = (f"`{U(hits[0])[:120]}` can exceed the floating-point range for admissible inputs (its argument depends on the "
+                           f"data coordinates and is not provably <= 0) and its value reaches the result as a plain factor, not through a "
+                           f"denominator: inf * 0 = nan where the true value is 0")
+                out.append(struct_ob("overflow-safe", qual(ci, fn), not hits, msg, ci.module.relpath, fn.lineno, tier="F"))
+    # positive example
+    ex = ast.parse("exp(-z) * (1 / (1 + exp(-z))) ** 2", mode="eval").body
+    if len(lints.unsaturated_exp(ex)) != 1:
+        raise AnalysisError("overflow lint lost its positive example")
+    return out
 
 
 def _composite(prog):
